@@ -57,6 +57,10 @@ var switches = map[string]map[string][]float64{
 	"Surm":                                {"smax": {3, 8}},
 }
 
+// models whose catalogue defaults violate a precondition (zero-length unit hydrograph, month 0, ...)
+var noDefaults = map[string]bool{"GR4J": true, "DateGenerator": true, "Lag": true, "Storage": true, "RatingCurvePartition": true,
+	"Muskingum": true, "StorageRouting": true}
+
 var intParams = map[string]bool{"DateGenerator.startDate": true, "DateGenerator.startMonth": true, "DateGenerator.startYear": true,
 	"DynamicSednetGully.YearDisturbance": true, "DynamicSednetGully.GullyEndYear": true,
 	"DynamicSednetGullyAlt.YearDisturbance": true, "DynamicSednetGullyAlt.GullyEndYear": true}
@@ -192,6 +196,8 @@ func genCase(r *rand.Rand, name string, nSets, nCells, nBlocks, T int) *modelCas
 				v := uni(r, rg.lo, rg.hi)
 				if sw, ok := switches[name][p.Name]; ok && r.Intn(3) == 0 {
 					v = sw[r.Intn(len(sw))]
+				} else if !noDefaults[name] && r.Intn(8) == 0 {
+					v = p.Default // catalogue defaults (often 0) select "not configured" branches
 				}
 				if intParams[name+"."+p.Name] {
 					v = math.Floor(v)
